@@ -47,8 +47,27 @@ def base_instance(rng):
     return inst, info
 
 
-def bad_fn():
-    return ["lin", [[[987654, f64(1.0)]], f64(0.0)]]
+_BAD = [0]
+
+
+def bad_fn(v=None):
+    """a function using the undefined id 987654, cycling through the places an id can occur in: a linear term, a quadratic
+    row only, a quadratic column only, the linear part of a quadratic, a polynomial monomial (with and without company)"""
+    _BAD[0] += 1
+    k = _BAD[0] % 6
+    u = 987654
+    w = v if v is not None else u
+    if k == 0:
+        return ["lin", [[[u, f64(1.0)]], f64(0.0)]]
+    if k == 1:
+        return ["quad", [[u], [w], [f64(1.0)], []]]
+    if k == 2:
+        return ["quad", [[w], [u], [f64(2.0)], [[[[w, f64(1.0)]], f64(0.0)]]]]
+    if k == 3:
+        return ["quad", [[w], [w], [f64(1.0)], [[[[u, f64(1.0)]], f64(0.5)]]]]
+    if k == 4:
+        return ["poly", [[[w, u, w], f64(1.0)], [[], f64(1.0)]]]
+    return ["poly", [[[w], f64(1.0)], [[u], f64(0.0)]]]          # even with an explicit zero coefficient the id is used
 
 
 def mutations(inst):
@@ -65,24 +84,25 @@ def mutations(inst):
     out.append(("sense9", lambda m: m.__setitem__(0, 9)))
     out.append(("obj-none", lambda m: m.__setitem__(1, [])))
     out.append(("obj-unset", lambda m: m.__setitem__(1, [["unset"]])))
-    out.append(("obj-undef", lambda m: m.__setitem__(1, [bad_fn()])))
+    out.append(("obj-undef", lambda m: m.__setitem__(1, [bad_fn(m[2][0][0] if m[2] else None)])))
     for k in range(nc):
         out.append(("c-eq@%d" % k, lambda m, k=k: m[3][k].__setitem__(1, 0)))
         out.append(("c-eq9@%d" % k, lambda m, k=k: m[3][k].__setitem__(1, 9)))
         out.append(("c-fn-none@%d" % k, lambda m, k=k: m[3][k].__setitem__(2, [])))
         out.append(("c-fn-unset@%d" % k, lambda m, k=k: m[3][k].__setitem__(2, [["unset"]])))
-        out.append(("c-undef@%d" % k, lambda m, k=k: m[3][k].__setitem__(2, [bad_fn()])))
+        out.append(("c-undef@%d" % k, lambda m, k=k: m[3][k].__setitem__(2, [bad_fn(m[2][0][0] if m[2] else None)])))
         out.append(("c-dup@%d" % k, lambda m, k=k: m[3].append(copy.deepcopy(m[3][k]))))
     for k in range(nr):
         out.append(("r-none@%d" % k, lambda m, k=k: m[4][k].__setitem__(0, [])))
         out.append(("r-eq@%d" % k, lambda m, k=k: m[4][k][0][0].__setitem__(1, 0)))
         out.append(("r-fn-none@%d" % k, lambda m, k=k: m[4][k][0][0].__setitem__(2, [])))
         out.append(("r-fn-unset@%d" % k, lambda m, k=k: m[4][k][0][0].__setitem__(2, [["unset"]])))
-        out.append(("r-undef@%d" % k, lambda m, k=k: m[4][k][0][0].__setitem__(2, [bad_fn()])))
+        out.append(("r-undef@%d" % k, lambda m, k=k: m[4][k][0][0].__setitem__(2, [bad_fn(m[2][0][0] if m[2] else None)])))
         out.append(("r-dup@%d" % k, lambda m, k=k: m[4].append(copy.deepcopy(m[4][k]))))
         if nc:
             out.append(("r-dup-active@%d" % k, lambda m, k=k: m[4][k][0][0].__setitem__(0, m[3][0][0])))
     out.append(("dep-undef", lambda m: m[5].append([987655, ["const", f64(1.0)]])))
+    out.append(("dep-fn-undef", lambda m: m[5].append([m[2][-1][0], bad_fn(m[2][0][0])])))
     out.append(("dep-unset", lambda m: m[5].append([m[2][0][0], ["unset"]])))
 
     def hint(m):
@@ -155,6 +175,25 @@ def gen(rng, tier):
             pm = copy.deepcopy(pinst)
             pm[3] = pm[3][1:]                                  # a used parameter is no longer declared
             cases.append({"op": "pvalidate", "input": pm, "stream": "pvalidate/undeclared"})
+        if pinst[3]:
+            pm = copy.deepcopy(pinst)
+            pm[3].append(copy.deepcopy(pm[3][0]))             # two parameters with the same id
+            cases.append({"op": "pvalidate", "input": pm, "stream": "pvalidate/dup-param"})
+        if pinst[2]:
+            pm = copy.deepcopy(pinst)
+            pm[2].append(copy.deepcopy(pm[2][0]))             # two decision variables with the same id
+            cases.append({"op": "pvalidate", "input": pm, "stream": "pvalidate/dup-var"})
+        if pinst[4]:
+            pm = copy.deepcopy(pinst)
+            pm[4][0][2] = [bad_fn(pm[2][0][0] if pm[2] else None)]   # an undefined id inside an ACTIVE constraint
+            cases.append({"op": "pvalidate", "input": pm, "stream": "pvalidate/constraint-undef"})
+            pm = copy.deepcopy(pinst)
+            pm[4].append(copy.deepcopy(pm[4][0]))             # duplicated active constraint id
+            cases.append({"op": "pvalidate", "input": pm, "stream": "pvalidate/dup-constraint"})
+        if pinst[5] and pinst[4]:
+            pm = copy.deepcopy(pinst)
+            pm[5][0][0][0][0] = pm[4][0][0]                   # a removed constraint carrying an active id
+            cases.append({"op": "pvalidate", "input": pm, "stream": "pvalidate/removed-dup-active"})
         pm = copy.deepcopy(pinst)
         if pm[5]:
             pm[5][0][0][0][2] = [bad_fn()]                     # removed constraints are NOT checked for used ids
